@@ -165,7 +165,7 @@ Proof. intros H. rewrite seq_set; [apply sinv_set, H|apply sinv_fs_fresh, H]. Qe
 (* the lock-free lookups: SELECT then open, with every file in place, is op_get / op_contains *)
 Theorem seq_get c s k rd now : Winv s -> run_rop (r_get c k rd now) s = snd (op_get c s k rd now).
 Proof.
-  intros W. unfold run_rop, r_get, op_get. cbn [r_select]. destruct (put (c_codec c) k) as [dbk raw|]; [|reflexivity].
+  intros W. unfold run_rop, r_get, r_get_with, op_get. cbn [r_select]. destruct (put (c_codec c) k) as [dbk raw|]; [|reflexivity].
   destruct (get_select dbk (b2z raw) now (rows s)) as [|r0 rs] eqn:G.
   - destruct (get_fast_path _ _); reflexivity.
   - assert (I0 : In r0 (rows s)).
@@ -482,15 +482,22 @@ Proof.
 Qed.
 
 (* ---- lookups open only files their row refers to ---- *)
-Theorem rop_ok_get c k rd now : rop_ok refs (r_get c k rd now).
+Theorem rop_ok_get_with again c k rd now : rop_ok refs (r_get_with again c k rd now).
 Proof.
-  intros d f h m. cbn [r_select r_get]. destruct (put (c_codec c) k) as [dbk raw|]; [|discriminate].
+  intros d f h m. unfold r_get_with. cbn [r_select]. destruct (put (c_codec c) k) as [dbk raw|]; [|discriminate].
   destruct (get_select dbk (b2z raw) now (rows d)) as [|r0 rs] eqn:G; [discriminate|].
   assert (I0 : In r0 (rows d)).
   { rewrite bridge_get_select in G. apply filter_cons_in in G. apply G. }
   cbv zeta. destruct (rfile r0) as [g|] eqn:Ef; [|discriminate]. intros E; inversion E; subst.
   apply in_frefs. eauto.
 Qed.
+
+Theorem rop_ok_get c k rd now : rop_ok refs (r_get c k rd now).
+Proof. apply rop_ok_get_with. Qed.
+
+(* the code looks the row up again when the file is gone (read off the source by the translator) *)
+Lemma get_looks_again c k rd now : r_again (r_get c k rd now) = true.
+Proof. reflexivity. Qed.
 
 Theorem rop_ok_contains c k now : rop_ok refs (r_contains c k now).
 Proof.
